@@ -104,7 +104,11 @@ func (b *Base128Encoder) Encode(src []byte) []byte {
 		whichByte++
 	}
 
-	dst = append(dst, bufByte)
+	if whichByte > 1 {
+		// bits of the last byte(s) are still pending; on a 7-byte boundary (and for
+		// empty input) there is nothing left and an extra character makes the length invalid
+		dst = append(dst, bufByte)
+	}
 	dst = escape128(dst)
 	return dst
 }
